@@ -136,6 +136,58 @@ func c03AllowedDirect(p *core.Program, fn *ssa.Function, mutator string, applyIm
 	return false, ""
 }
 
+// c03R10: result-less setters of Contact store on every path.
+func c03R10(p *core.Program, r *core.Report) {
+	n := 0
+	for _, fn := range p.ModuleFunctions() {
+		rn := recvNamed(fn)
+		if rn == nil || rn.Obj().Name() != "Contact" || core.RelPkg(core.FuncPkgPath(fn)) != "flows" || !strings.HasPrefix(fn.Name(), "Set") || p.IsTestFile(fn.Pos()) || fn.Synthetic != "" {
+			continue
+		}
+		if fn.Signature.Results().Len() != 0 || fn.Signature.Params().Len() != 1 || len(fn.Params) != 2 {
+			continue
+		}
+		n++
+		// blocks that store something derived from the parameter into a field of the receiver
+		stores := map[*ssa.BasicBlock]bool{}
+		core.EachInstr(fn, false, func(_ *ssa.Function, in ssa.Instruction) {
+			st, ok := in.(*ssa.Store)
+			if !ok {
+				return
+			}
+			fa, ok := st.Addr.(*ssa.FieldAddr)
+			if !ok || fa.X != ssa.Value(fn.Params[0]) {
+				return
+			}
+			if core.BackSlice(st.Val, func(*ssa.Call) bool { return true })[fn.Params[1]] {
+				stores[st.Block()] = true
+			}
+		})
+		// every path from the entry to a return passes such a block
+		ok := len(stores) > 0
+		if ok {
+			seen := map[*ssa.BasicBlock]bool{}
+			var walk func(b *ssa.BasicBlock)
+			walk = func(b *ssa.BasicBlock) {
+				if seen[b] || stores[b] {
+					return
+				}
+				seen[b] = true
+				if _, isRet := b.Instrs[len(b.Instrs)-1].(*ssa.Return); isRet {
+					ok = false
+				}
+				for _, sc := range b.Succs {
+					walk(sc)
+				}
+			}
+			walk(fn.Blocks[0])
+		}
+		r.Check(ok, "R10", "Contact."+fn.Name()+"/always-sets", p.Pos(fn.Pos()), "the parameter is stored on every path", "Contact."+fn.Name()+" returns on some path without storing its argument, and has no result to say so: the caller announces a change (an event) that did not happen")
+	}
+	r.Count("contact_plain_setters", n)
+	r.Require("contact_plain_setters", n, 4)
+}
+
 // c03R9: element identity inside the list types of package flows.
 func c03R9(p *core.Program, r *core.Report) {
 	pk := p.Pkg("flows")
@@ -257,6 +309,7 @@ func checkC03(p *core.Program, r *core.Report) {
 	r.Rule("R8", "`unchanged` includes `both unset`: every helper of the modifiers package that compares two values of one pointer type for equality and decides an Apply guard returns true when both are nil (evaluated over the nil/nil case) — otherwise clearing what is already unset is reported as a change, every time")
 	r.Rule("R7", "one notion of `same URN`: the Contact methods that take a URN (HasURN, RemoveURN, and AddURN through HasURN) compare it with the contact's URNs the same way everywhere (Identity() on both sides), so that `has` and `remove` cannot disagree; ContactURN.Equal, which decides whether a URN list changed, compares the complete raw URN that contact_urns_changed carries, never a projection of it")
 	r.Rule("R9", "one notion of `same group`: inside the methods of a list type of package flows whose elements are pointers to an asset wrapper with a UUID() method (GroupList), elements are identified the same way everywhere — by UUID — and never by pointer (an == on two element pointers, slices.Index / slices.Contains on the element slice): the membership test and Add go by UUID, so a Remove that goes by pointer finds nothing when the contact's groups were resolved from another load of the same assets, yet the modifier has already decided, by UUID, to announce the removal")
+	r.Rule("R10", "a setter that reports nothing always sets: every method Set… of flows.Contact that has one parameter and no result stores (a value derived from) that parameter into a field of the contact on every path — its callers announce the change (msg_received after SetLastSeenOn, the modifiers' events after SetName / SetLanguage / …) without being able to learn that nothing was stored")
 	r.Assumption("the replay semantics of each event type (that applying contact_name_changed sets the name, etc.) is the host's contract and is not checked")
 
 	modIface := p.Interface("flows", "Modifier")
@@ -282,6 +335,7 @@ func checkC03(p *core.Program, r *core.Report) {
 	c03R6(p, r, applies)
 	c03R7(p, r)
 	c03R9(p, r)
+	c03R10(p, r)
 	c03R8(p, r, applies)
 
 	// ---------------- R1
